@@ -1,5 +1,7 @@
 """C17 Starving/DAG mutexes, Counter/Stack waits: interleaving model (coq/C17_Sync) + scripted arrival orders,
 free-running contention, misuse under recover (DESIGN.md §7.17)."""
+import os
+
 from . import lib
 
 LEVEL = "proof"
@@ -23,12 +25,32 @@ def run(ctx):
         if thorough:
             args.append("--thorough")
         ctx.corr(hx, args, cases_name="cases_%s.v" % what)
-    ctx.corr(hx, ["free", "--n", "25" if thorough else "4"], cases_name="free.v")
+        # the same generator run again with debug.SetEnabled(true) (runtime/debug deadlock-detection mode: the only run-time
+        # mode switch of runtime/syncutils; process-global, hence a second harness invocation). Same Go-side oracle; the
+        # model has no mode, so cases that are textually identical to the default-mode run (the scripted runner is
+        # deterministic) are covered by its Coq evaluation and only differing cases files are evaluated again.
+        ctx.corr(hx, args + ["--debug", "--same-as", os.path.join(ctx.build, "cases_%s.v" % what)],
+                 cases_name="cases_%s_debug.v" % what)
+    nfree = "25" if thorough else "4"
+    ctx.corr(hx, ["free", "--n", nfree], cases_name="free.v")
+    # debug mode: the same runs + directed cases about the deadlock detector itself (short waits: detectors end with the
+    # acquisition, nothing reported; a wait longer than debug.DeadlockDetectionTimeout: reported once, still parked, granted
+    # after the release)
+    ctx.corr(hx, ["free", "--debug", "--n", nfree], cases_name="free_debug.v")
     if thorough:
         # the same contention runs under the race detector (a reported race makes the harness exit non-zero)
         hxr = ctx.go_build("c17", race=True)
         ctx.corr(hxr, ["free", "--n", "6"], cases_name="free_race.v")
+        ctx.corr(hxr, ["free", "--debug", "--n", "3"], cases_name="free_race_debug.v")
     ctx.assumptions += [
+        "the model has no mode: StarvingMutex/DAGMutex lock semantics are assumed to be the same with debug.SetEnabled(true) "
+        "(runtime/debug deadlock-detection mode, the only run-time mode switch of runtime/syncutils) and without; tied to the code "
+        "by running every scripted and free-running family in both modes (separate harness invocations) with the same oracle and "
+        "the same model; the deadlock detector only prints after debug.DeadlockDetectionTimeout (5 s; scripted waits are "
+        "micro-seconds), it never panics or touches the lock (directed cases: short waits unreported and detectors ended, a "
+        "long wait reported once, still parked, granted after the release); switching the mode while a call is blocked: "
+        "directed cases only. Build tags `deadlock` / `fakemutex` only re-alias syncutils.Mutex/RWMutex, which none of the four "
+        "objects uses (they use sync.Mutex/sync.RWMutex directly): not run",
         "critical sections under the objects' internal mutexes are atomic; Go memory-model data races are out of scope "
         "(StarvingMutex.String() reads the fields without the mutex: not used)",
         "liveness is stated as absence of lost wake-ups / of stuck states, not as eventual progress under a fair scheduler "
